@@ -228,7 +228,7 @@ func (p *Program) verifyUnitOnce(u *Unit, splitVal *big.Int, sitePrefix string) 
 				x.oblige(o.st, "frame", name, group, Eq(a, b), "world component "+name+" unchanged (not in modifies)")
 			}
 			for i, prm := range fn.Params {
-				if pv, ok := args[i].(*PtrVal); ok && !mod["*"+prm.Name()] {
+				if pv, ok := args[i].(*PtrVal); ok && !mod["*"+prm.Name()] && !mod["*"+u.Contract.paramAlias(fn, i)] {
 					a, aok := entryMem[pv.Obj].(*Term)
 					b, bok := o.st.mem[pv.Obj].(*Term)
 					if aok && bok && a != b {
@@ -310,6 +310,7 @@ func (x *Exec) frameEnv(f *Frame, st *State, header *ssa.BasicBlock) *Env {
 				env.vars[prm.Name()] = p
 			}
 		}
+		x.aliasParams(env, g.fn, x.prog.contractFor(g.fn))
 		for _, fv := range g.fn.FreeVars {
 			if v, ok := g.regs[fv]; ok {
 				env.vars[fv.Name()] = v
